@@ -29,7 +29,7 @@ package types
 //@   ensures result == (psh.Total == 0)
 
 //@ func (PartSetHeader).Equals
-//@   props C15 C02
+//@   props C15 C02 C13 C04
 //@   pure
 //@   ensures result == psHeaderEq(psh, other)
 
@@ -39,7 +39,7 @@ package types
 //@   ensures result == (len(blockID.Hash) == 0 && blockID.PartsHeader.Total == 0)
 
 //@ func (BlockID).Equals
-//@   props C15 C02
+//@   props C15 C02 C13 C04
 //@   pure
 //@   ensures result == blockIDEq(blockID, other)
 
@@ -142,7 +142,7 @@ package types
 //@   ensures  val != nil ==> fresh(val) && val.VotingPower == valSet.Validators[index].VotingPower && val.PubKey == valSet.Validators[index].PubKey && val.Address == valSet.Validators[index].Address
 
 //@ func (*ValidatorSet).TotalVotingPower
-//@   props C15 C14 C16 C01 C02
+//@   props C15 C14 C16 C01 C02 C04 C13
 //@   requires wfValSet(valSet)
 //@   defines  forall(s, Slice, forall(e, IntRefArr, forall(p, RefIntArr, sumTo(s, e, p, 0) == 0)))
 //@   defines  forall(s, Slice, forall(e, IntRefArr, forall(p, RefIntArr, forall(k, Int, trigger(sumTo(s, e, p, k+1)), k >= 0 ==> sumTo(s, e, p, k+1) == sumTo(s, e, p, k) + p[e[off(s)+k]]))))
@@ -214,7 +214,7 @@ package types
 //@      && forall(j, 0, len(vs.votes), vs.votesByBlock[keyOf(*vs.maj23)].votes[j] != nil ==> vs.votes[j] == vs.votesByBlock[keyOf(*vs.maj23)].votes[j])
 
 //@ func (*VoteSet).addVerifiedVote
-//@   props C15 C01 C02
+//@   props C15 C01 C02 C04
 //@   let i = vote.ValidatorIndex
 //@   let q = quorum(totalPower(voteSet.valSet))
 //@   let oldBvSum = ite(old(has(voteSet.votesByBlock, blockKey)), old(voteSet.votesByBlock[blockKey].sum), 0)
@@ -467,7 +467,7 @@ package types
 // validator set updates (C14, C16)
 
 //@ func (*ValidatorSet).Add
-//@   props C14 C16 C01 C15
+//@   props C14 C16 C01 C15 C04 C13 C02
 //@   requires wfValSet(valSet) && val != nil && val.VotingPower >= 0
 //@   assigns  valSet.Validators, valSet.proposer, valSet.totalVotingPower, valSet.Validators[*]
 //@   ensures  [caches-invalidated] added ==> valSet.proposer == nil && valSet.totalVotingPower == 0
@@ -483,7 +483,7 @@ package types
 //@   ensures  [added-is-a-private-copy] added ==> exists(m, 0, len(valSet.Validators), fresh(valSet.Validators[m]) && bytesEq(valSet.Validators[m].Address, val.Address) && valSet.Validators[m].VotingPower == val.VotingPower && valSet.Validators[m].Accum == val.Accum)
 
 //@ func (*ValidatorSet).Update
-//@   props C14 C16 C01 C15
+//@   props C14 C16 C01 C15 C04 C13 C02
 //@   requires wfValSet(valSet) && val != nil && val.VotingPower >= 0
 //@   assigns  valSet.proposer, valSet.totalVotingPower, valSet.Validators[*]
 //@   ensures  [caches-invalidated] updated ==> valSet.proposer == nil && valSet.totalVotingPower == 0
@@ -495,7 +495,7 @@ package types
 //@   ensures  [updated-is-a-private-copy] updated ==> exists(m, 0, len(valSet.Validators), fresh(valSet.Validators[m]) && bytesEq(valSet.Validators[m].Address, val.Address) && valSet.Validators[m].VotingPower == val.VotingPower && valSet.Validators[m].Accum == val.Accum)
 
 //@ func (*ValidatorSet).Remove
-//@   props C14 C16 C01 C15
+//@   props C14 C16 C01 C15 C04 C13 C02
 //@   requires wfValSet(valSet)
 //@   assigns  valSet.Validators, valSet.proposer, valSet.totalVotingPower, valSet.Validators[*]
 //@   ensures  [caches-invalidated] removed ==> valSet.proposer == nil && valSet.totalVotingPower == 0
